@@ -194,10 +194,17 @@ func checkC16(rc *Run) error {
 		// after explode the entries of a map that had a merge key are entries: renaming a key through `key` renames the entry
 		{"explode-of-a-merge-keeps-entries", "a: &A {x: 1}\nb: {<<: *A, z: 1}\n", `explode(.) | ((.b.z | key) = "q") | [(.b | keys), [.b[] | key], [.b[] | path]]`, `[["x","q"],["x","q"],[["b","x"],["b","q"]]]`},
 		{"explode-of-a-merge-numbers-nothing", "a: &A {x: 1}\nb: {<<: *A, z: 1}\n", `explode(.) | [.b | ... | select(is_key) | path]`, `[["b","x"],["b","z"]]`},
+		// the elements of a decoded TOML array of tables sit at 0, 1, 2
+		{"toml-array-of-tables-indices", "@toml@[[t]]\nq=1\n[[t]]\nq=2\n[[t]]\nq=3\n", `[.t[] | path]`, `[["t",0],["t",1],["t",2]]`},
 		// a document made by split_doc is a root: its path is empty, paths below it start there
 		{"split_doc-makes-roots", "d: [{e: 1}, {e: 2}]\n", `[.d[] | split_doc | [path, (.e | path)]]`, `[[[],["e"]],[[],["e"]]]`},
 	} {
-		p := runProc(extraDir, []byte(ec.stdin), "-o=json", "-I0", ec.expr)
+		xargs := []string{"-o=json", "-I0", ec.expr}
+		if strings.HasPrefix(ec.stdin, "@toml@") {
+			ec.stdin = strings.TrimPrefix(ec.stdin, "@toml@")
+			xargs = append([]string{"-p=toml"}, xargs...)
+		}
+		p := runProc(extraDir, []byte(ec.stdin), xargs...)
 		if got := strings.TrimSpace(p.Stdout); p.Hang || p.Code != 0 || got != ec.want {
 			rc.Report("extra:"+ec.name, fmt.Sprintf("yq '%s' on %q prints %q (exit %d, %s); the positions give %s", ec.expr, ec.stdin, p.Stdout, p.Code, firstLine(p.Stderr), ec.want),
 				M{"machine": "Paths", "concrete": M{"argv": []string{"yq", "-o=json", "-I0", ec.expr}, "stdin": ec.stdin}, "expected": ec.want, "observed": p.Stdout})
